@@ -699,16 +699,53 @@ def _judge_product_rule(fn, class_node):
     helpers = {st.name: st for st in class_node.body
                if isinstance(st, ast.FunctionDef) and st.name.startswith("_")
                and not st.name.startswith("__")}
+
+    class Kid:
+        """a factor: equal to the factors of the same label, a distinct object
+        unless shared on purpose"""
+
+        def __init__(self, label):
+            self.label = label
+
+        def __eq__(self, o):
+            return isinstance(o, Kid) and o.label == self.label
+
+        def __hash__(self):
+            return hash(self.label)
+
+        def __getitem__(self, i):       # ch[1]: the label
+            return self.label
+
+        def __repr__(self):
+            return f"<factor {self.label}>"
+    shapes = []
     for n in range(0, 5):
         for zeros in itertools.product((False, True), repeat=n):
-            kids = [("child", i) for i in range(n)]
+            shapes.append((list(range(n)), zeros, False))
+    # repeated factors: equal nodes that are distinct objects (parse("x*x")),
+    # and one object standing at several places (x*x with one x)
+    for labels in ([0, 0], [0, 1, 0], [0, 0, 0], [0, 0, 1, 1], [1, 0, 0]):
+        for shared in (False, True):
+            shapes.append((labels, tuple(False for _ in labels), shared))
+        shapes.append((labels, tuple(lb == 1 for lb in labels), False))
+    for labels, zeros_, shared in shapes:
+        n = len(labels)
+        # (a zero derivative belongs to the label, not to the position)
+        zero_of = {}
+        for lb, z in zip(labels, zeros_):
+            zero_of[lb] = zero_of.get(lb, False) or z
+        zeros = [zero_of[lb] for lb in labels]
+        for _once in (0,):
+            pool = {}
+            kids = [(pool.setdefault(lb, Kid(lb)) if shared else Kid(lb))
+                    for lb in labels]
 
             class Mp:
                 pass
             mp = Mp()
 
             def rec(ch, *a, **k):
-                return 0 if zeros[ch[1]] else Poly.sym(f"d{ch[1]}")
+                return 0 if zero_of[ch[1]] else Poly.sym(f"d{ch[1]}")
 
             def undiff(ch, *a, **k):
                 return Poly.sym(f"f{ch[1]}")
@@ -757,20 +794,23 @@ def _judge_product_rule(fn, class_node):
             for i in range(n):
                 if zeros[i]:
                     continue
-                t = Poly.sym(f"d{i}")
+                t = Poly.sym(f"d{labels[i]}")
                 for j in range(n):
                     if j != i:
-                        t = t * Poly.sym(f"f{j}")
+                        t = t * Poly.sym(f"f{labels[j]}")
                 want = want + t
+            what = (f"{n} factors" if len(set(labels)) == n else
+                    f"factors {labels} (equal labels are equal nodes, "
+                    f"{'one object' if shared else 'distinct objects'})")
             try:
                 got = it.call_function(fn, [mp, "NODE"], {})
             except Raised as r:
-                wit.append(f"{n} factors, zero derivatives at "
+                wit.append(f"{what}, zero derivatives at "
                            f"{[i for i in range(n) if zeros[i]]}: raises at line "
                            f"{r.node.lineno}")
                 continue
             if not isinstance(got, (Poly, int)) or Poly.lift(got) != want:
-                wit.append(f"{n} factors, zero derivatives at "
+                wit.append(f"{what}, zero derivatives at "
                            f"{[i for i in range(n) if zeros[i]]}: {got!r} "
                            f"instead of {want!r}")
     return wit
